@@ -91,7 +91,11 @@ func drawRelatedRules(t *Tape, parentNS string, step int) []interface{} {
 	for i := 0; i <= n; i++ {
 		k := kinds[t.Pick(len(kinds), "relkind")]
 		r := Object{"apiVersion": k.APIVersion(), "resource": k.Plural}
-		switch t.Pick(9, "ruleshape") {
+		shapes := 9
+		if step < 0 {
+			shapes = 7 // valid rules only
+		}
+		switch t.Pick(shapes, "ruleshape") {
 		case 0:
 			r["labelSelector"] = Object{"matchLabels": Object{"rel": "a"}}
 		case 1:
